@@ -106,6 +106,7 @@ type c12Plan struct {
 	A       [][]string // A[k][q]
 	trouble string
 	hang    string // a call on the private shadow instance, run alone, did not return
+	seqWrong string // an answer of the shadow (single caller) that is wrong for the model state
 }
 
 func c12NewForest(c *C12Case, park *c12Exec) *u.MapPollard {
@@ -341,7 +342,63 @@ func buildPlan(c *C12Case) *c12Plan {
 		p.A = append(p.A, evalPool())
 	}
 	p.wops = append(setupOps, wops...)
+	p.checkShadowTruth(K)
 	return p
+}
+
+// checkShadowTruth: C12 says every query returns a result that is correct for
+// a whole-block state.  Linearizability against the shadow decides "for a
+// whole-block state"; this decides "correct" for the answers whose truth the
+// reference model gives without further assumptions: leaf count, roots,
+// verifier snapshot on every forest, and on full forests (which track every
+// leaf) leaf positions and proofs.  Only states reached through writer steps
+// that all succeeded are judged.
+func (p *c12Plan) checkShadowTruth(K int) {
+	for k := 0; k <= K && k < len(p.A) && p.seqWrong == ""; k++ {
+		if k > 0 && p.W[k-1] != "ok" && !strings.HasPrefix(p.W[k-1], "ok/") {
+			return
+		}
+		st := p.states[k]
+		L := st.Layout()
+		for qi, q := range p.queries {
+			want, judged := "", true
+			switch q.kind {
+			case "numleaves":
+				want = fmt.Sprint(st.N)
+			case "roots":
+				want = hexs(L.Roots)
+			case "stump":
+				want = fmt.Sprintf("%d:%s", st.N, hexs(L.Roots))
+			case "leafpos":
+				if !p.c.Full {
+					judged = false
+					break
+				}
+				if ro, ok := L.LeafAt[q.hashes[0]]; ok {
+					want = fmt.Sprintf("%d:%v", ro.Pos(L.R), true)
+				} else {
+					want = "0:false"
+				}
+			case "prove":
+				if !p.c.Full || len(q.hashes) == 0 || st.N <= 1 {
+					judged = false
+					break
+				}
+				pr, ok := L.CanonProof(q.hashes)
+				if !ok {
+					judged = false // some requested leaf is not live in this state: the error text is not specified
+					break
+				}
+				want = fmt.Sprintf("%v:%v:%s", false, pr.Targets, hexs(pr.Proof))
+			default:
+				judged = false
+			}
+			if judged && p.A[k][qi] != want {
+				p.seqWrong = fmt.Sprintf("query %s in the state after %d writer steps: a single caller gets %s, the state's true answer is %s", q.kind, k, clip(p.A[k][qi], 70), clip(want, 70))
+				return
+			}
+		}
+	}
 }
 
 func c12Snapshot(m *u.MapPollard) []byte {
@@ -1340,6 +1397,9 @@ func (e *c12Engine) Run(seed uint64, f *Findings) *CaseResult {
 	if plan.hang != "" {
 		return e.seqHang(c, plan, f)
 	}
+	if plan.seqWrong != "" {
+		return e.seqWrongResult(c, plan, f)
+	}
 	if plan.trouble != "" {
 		return &CaseResult{Stats: NewStats(), Case: c, Digest: mix64(seed)}
 	}
@@ -1384,10 +1444,27 @@ func (e *c12Engine) seqHang(c *C12Case, plan *c12Plan, f *Findings) *CaseResult 
 	return cr
 }
 
+// seqWrongResult: the answer is wrong even without any concurrency.
+func (e *c12Engine) seqWrongResult(c *C12Case, plan *c12Plan, f *Findings) *CaseResult {
+	kind := strings.SplitN(strings.TrimPrefix(plan.seqWrong, "query "), " ", 2)[0]
+	v := Violation{Property: "C12", Class: "wrong-answer:" + kind, Detail: "not correct for any whole-block state — " + plan.seqWrong}
+	cr := &CaseResult{Stats: NewStats(), Case: c, NonTrivial: true, Digest: mix64(c.Seed ^ 0x5e9)}
+	cr.Stats.OracleChecks["shadow_truth"]++
+	if f != nil && f.Matches(v) {
+		cr.Stats.Known["C12:"+v.Class]++
+	} else {
+		cr.Violations = []Violation{v}
+	}
+	return cr
+}
+
 func (e *c12Engine) runCase(c *C12Case, f *Findings, trace bool) (*CaseResult, []string) {
 	plan := buildPlan(c)
 	if plan.hang != "" {
 		return e.seqHang(c, plan, f), []string{"sequential run stuck in " + plan.hang}
+	}
+	if plan.seqWrong != "" {
+		return e.seqWrongResult(c, plan, f), []string{plan.seqWrong}
 	}
 	if plan.trouble != "" {
 		return &CaseResult{Stats: NewStats(), Case: c}, []string{"plan: " + plan.trouble}
